@@ -510,6 +510,24 @@ def run_timedelta(case):
     if sign < 0 and s_int not in (-k, -k - 1):
       return out.fail(what='negative non-integer duration is not rounded to a neighbouring second', seconds=sec_f,
                       got=s_int)
+  # history: a sequence of short-lived scales with different time units in one process (each freed before the next
+  # is built, so object addresses are reused): the conversion must depend on the scale's value, not on its identity
+  import gc
+  from dinosaur import primitive_equations as pe, scales
+  u = scales.units
+  probe = np.asarray([3600, 1, 86399], dtype='timedelta64[s]')
+  for t_unit in (1.0, 3600.0, float(T) if T > 0 else 7.0, 60.0, 86400.0, 0.5):
+    tmp = pe.PrimitiveEquationsSpecs.from_si(scale=scales.Scale(6.37122e6 * u.m, t_unit * u.s, 1 * u.kg, 1 * u.degK))
+    nd = tmp.nondimensionalize_timedelta64(probe)
+    back_a = tmp.dimensionalize_timedelta64(nd)
+    back_s = tmp.dimensionalize_timedelta64(float(np.asarray(nd)[0]))
+    out.units += 1
+    if not np.array_equal(back_a, probe) or back_s != probe[0]:
+      return out.fail(what='whole-second round trip fails for a freshly built scale used after other scales in the same '
+                      'process', time_unit_s=t_unit, got=[int(v) for v in back_a.astype(np.int64)],
+                      scalar=int(back_s / np.timedelta64(1, 's')), want=[3600, 1, 86399])
+    del tmp, nd
+    gc.collect()
   return out
 
 
